@@ -29,6 +29,8 @@ Proof.
   - destruct (do_gc (clear_out s)) as [sd r] eqn:E. eapply Hgen; eauto. eapply do_gc_good; eauto.
   - destruct (do_reopen (clear_out s)) as [sd r] eqn:E. eapply Hgen; eauto. eapply do_reopen_good; eauto.
   - destruct (do_delchan (clear_out s)) as [sd r] eqn:E. eapply Hgen; eauto. eapply do_delchan_good; eauto.
+  - destruct (do_writefail (clear_out s) w0 bs j) as [sd r] eqn:E. eapply Hgen; eauto. eapply do_writefail_good; eauto.
+  - destruct (do_commit_tf (clear_out s) w0 e) as [sd r] eqn:E. eapply Hgen; eauto. eapply do_commit_tf_good; eauto.
 Qed.
 
 (* ------------------------------------------------------------------ whole histories *)
